@@ -127,6 +127,12 @@ func main() {
 			}
 			flush(r, j.sub, out[k])
 		}
+		// enough evidence: every further failing case costs its full wait bounds
+		if len(r.Findings) >= 24 {
+			r.Count("aborted-after-many-findings")
+
+			break
+		}
 	}
 	r.Finish()
 }
